@@ -32,6 +32,42 @@ var types = []string{"c", "g", "s", "t"}
 
 type cfg struct{ Exp [4]time.Duration } // expiry per type c,g,s,t
 
+// serverFor builds the statsd.Server for an expiry configuration exactly as the gostatsd command does: from a
+// command line, through setupConfiguration and constructServer (this harness is compiled into cmd/gostatsd).
+// The most common value goes on --expiry-interval, from which the per-type settings inherit; only the
+// types that differ get their own flag.
+var servers = map[[4]time.Duration]*statsd.Server{}
+
+func serverFor(c cfg) *statsd.Server {
+	if s := servers[c.Exp]; s != nil {
+		return s
+	}
+	count := map[time.Duration]int{}
+	for _, e := range c.Exp {
+		count[e]++
+	}
+	main, best := c.Exp[0], 0
+	for _, e := range c.Exp { // first most frequent value, deterministic
+		if count[e] > best {
+			main, best = e, count[e]
+		}
+	}
+	args := []string{"gostatsd", "--backends=null", "--percent-threshold=90", "--timer-histogram-limit=0", "--expiry-interval=" + main.String()}
+	for i, name := range []string{"counter", "gauge", "set", "timer"} {
+		if c.Exp[i] != main {
+			args = append(args, "--expiry-interval-"+name+"="+c.Exp[i].String())
+		}
+	}
+	s := verifServer(args[2:], nil)
+	// what the command line said must be what the server is configured with (a wrong value may need more virtual
+	// time than the histories below cover to become visible, e.g. 5m instead of "keep forever")
+	if got := [4]time.Duration{s.ExpiryIntervalCounter, s.ExpiryIntervalGauge, s.ExpiryIntervalSet, s.ExpiryIntervalTimer}; got != c.Exp {
+		res.Violate("expiry-configuration", fmt.Sprintf("command line %v gives the server expiry intervals counter=%v gauge=%v set=%v timer=%v, want %v", args[1:], got[0], got[1], got[2], got[3], c.Exp), map[string]any{"cfg": c, "seq": []int{}})
+	}
+	servers[c.Exp] = s
+	return s
+}
+
 // reference state per type
 type rser struct {
 	present bool
@@ -50,7 +86,7 @@ type world struct {
 
 func newWorld(c cfg) *world {
 	w := &world{}
-	w.ag = statsd.VerifWiredAggregator(statsd.Server{PercentThreshold: []float64{90}, ExpiryIntervalCounter: c.Exp[0], ExpiryIntervalGauge: c.Exp[1], ExpiryIntervalSet: c.Exp[2], ExpiryIntervalTimer: c.Exp[3], DisabledSubTypes: gostatsd.TimerSubtypes{}, HistogramLimit: 0})
+	w.ag = statsd.VerifWiredAggregator(*serverFor(c))
 	w.ag.VerifSetNow(func() time.Time { return fx.Epoch.Add(w.now) })
 	return w
 }
